@@ -1,0 +1,25 @@
+//go:build verif
+
+package client
+
+import (
+	"github.com/go-logr/logr"
+	"github.com/ovn-org/libovsdb/cache"
+)
+
+// VerifHook, when set, is called at named points of the client (build tag
+// verif only). It is used by external verification harnesses to pin or widen
+// goroutine interleavings.
+var VerifHook func(point string)
+
+func verifPoint(p string) {
+	if h := VerifHook; h != nil {
+		h(p)
+	}
+}
+
+// VerifNewAPI returns an API over a bare cache (build tag verif only).
+func VerifNewAPI(c *cache.TableCache) API {
+	l := logr.Discard()
+	return newAPI(c, &l)
+}
